@@ -69,8 +69,20 @@ def build_layout(rng, well_formed):
         n.home = home
         nodes[n.name] = n
         fds[n.name] = n
+    # foreign devices that sit on a subnet which has a BBMD of its own but are registered with the BBMD of another subnet
+    # (only where the tables are two-hop: a foreign device inside a subnet that its own BBMD also reaches by directed broadcast
+    # is a misconfiguration that is not generated)
+    if not one_hop and len(bbmds) >= 2:
+        for i in range(rng.choice([0, 0, 1, 2])):
+            k = rng.choice(sorted(bbmds))
+            home = rng.choice([h for h in sorted(bbmds) if h != k])
+            n = BIPNode("foreign", "G%d" % i, "192.168.%d.%d/24" % (k, 100 + i), nets[k], log, bbmd="192.168.%d.2" % home, ttl=rng.choice([5, 30, 300]))
+            n.home = home
+            n.subnet = k
+            nodes[n.name] = n
+            fds[n.name] = n
     desc = {"subnets": subs, "bbmds": sorted(bbmds), "one_hop": one_hop, "well_formed": well_formed,
-            "nodes": sorted(nodes), "foreign": {f.name: f.home for f in fds.values()},
+            "nodes": sorted(nodes), "foreign": {f.name: f.home for f in fds.values()}, "foreign_inside_bbmd_subnet": {f.name: f.subnet for f in fds.values() if hasattr(f, "subnet")},
             "bdt": {b.name: [str(x) + ("/24" if x.addrMask != 0xFFFFFFFF else "") for x in b.bip.bbmdBDT] for b in bbmds.values()}}
     return nets, log, nodes, bbmds, fds, desc
 
@@ -84,7 +96,37 @@ def layout_case(run, rng, well_formed):
         run.violation("layout-does-not-settle", {"layout": desc, "error": str(err)})
         return
     seq = 0
-    for name in sorted(nodes):
+    rounds = [sorted(nodes)]
+    movers = [f for f in fds.values() if len(bbmds) >= 2 and rng.random() < 0.5]
+    if movers:
+        rounds.append("switch")
+        rounds.append(sorted(nodes))
+    for rnd in rounds:
+        if rnd == "switch":
+            # some foreign devices register with another BBMD while their entry at the previous one is still alive
+            for f in movers:
+                choices = [h for h in sorted(bbmds) if h != f.home and h != getattr(f, "subnet", None)]
+                if not choices:
+                    continue                # (never with the BBMD of the subnet the device itself sits on)
+                new_home = rng.choice(choices)
+                try:
+                    f.bip.register(Address("192.168.%d.2" % new_home), f.bip.bbmdTimeToLive)
+                    CLOCK.drive(duration=0.5, max_steps=100000)
+                except Exception as err:
+                    run.violation("re-registration-raised/" + type(err).__name__, {"layout": desc, "foreign": f.name, "error": repr(err)[:100]})
+                    return
+                desc.setdefault("moved", {})[f.name] = [f.home, new_home]
+                f.home = new_home
+                run.count("foreign_devices_moved_to_another_bbmd")
+            continue
+        if layout_round(run, rng, rnd, nodes, log, desc, well_formed, seq) is False:
+            return
+        seq += len(rnd)
+    run.count("layouts")
+
+
+def layout_round(run, rng, names, nodes, log, desc, well_formed, seq):
+    for name in names:
         src = nodes[name]
         seq += 1
         token = "BC%04d" % seq
@@ -94,7 +136,7 @@ def layout_case(run, rng, well_formed):
             CLOCK.drive(duration=0.3, max_steps=100000)
         except StepBudgetExceeded as err:
             run.violation("broadcast-does-not-terminate", {"layout": desc, "source": name, "error": str(err)})
-            return
+            return False
         got = [e for e in log[l0:] if e["token"] == token]
         who = [e["at"] for e in got]
         wit = {"layout": desc, "source": name}
@@ -121,7 +163,7 @@ def layout_case(run, rng, well_formed):
                               dict(wit, missing=sorted(missing)))
                 continue
             run.count("complete_distributions")
-    run.count("layouts")
+    return True
 
 
 # ----------------------------------------------------------------------
